@@ -411,9 +411,6 @@ fn is_valid_atom_char(c: u8) -> bool {
 // https://datatracker.ietf.org/doc/html/rfc2822#section-3.2.5
 fn write_quoted_string_char(f: &mut Formatter<'_>, c: char) -> FmtResult {
     match c {
-        // Can not be encoded.
-        '\n' | '\r' => Err(std::fmt::Error),
-
         // Note, not qcontent but can be put before or after any qcontent.
         '\t' | ' ' => f.write_char(c),
 
